@@ -102,7 +102,82 @@ def case_list(seed: int, tier: str):
     return out
 
 
-def run_case(case):
+# ------------------------------------------------------------------ recipes: the concrete content of a case
+# A recipe is the replayable content of one fault case — {"mode", "class", "cfg" (public constructor configuration), "history",
+# "faulty_call", "continuation"} with every batch written out (`Batch.describe()`: tensors with dtype and shape, python
+# scalars / None / strings as they are).  The sweep GENERATES a recipe from the case seed and RUNS it with `run_recipe`; the
+# result record carries the recipe (`detail`) whenever the parent may report a violation, and a replay runs the recorded recipe
+# through the same `run_recipe` — nothing is regenerated.
+#   mode "cls": valid history ∘ faulty update() ∘ continuation, on the object and on a twin that never saw the fault
+#   mode "fn" : one call of the functional twin of the class
+
+def bdesc(b: Batch) -> dict:
+    """`Batch.describe()` with python tuples marked (JSON would turn them into lists)"""
+    d = b.describe()
+    d["args"] = [{"__tuple__": list(a)} if isinstance(a, tuple) else a for a in d["args"]]
+    d["kwargs"] = {k: ({"__tuple__": list(a)} if isinstance(a, tuple) else a) for k, a in d["kwargs"].items()}
+    return d
+
+
+def bundesc(d: dict) -> Batch:
+    def u(a):
+        return tuple(a["__tuple__"]) if isinstance(a, dict) and set(a) == {"__tuple__"} else a
+    return Batch.from_describe({"args": [u(a) for a in d["args"]], "kwargs": {k: u(a) for k, a in (d.get("kwargs") or {}).items()}})
+
+
+def spec_by_name(name):
+    return next(s for s in SPECS if s.name == name)
+
+
+def recipe(mode, spec, cfg, hist, fb, cont, extra=None):
+    d = {"mode": mode, "class": spec.name, "cfg": public_cfg(cfg), "history": [bdesc(b) for b in hist],
+         "faulty_call": bdesc(fb) if fb is not None else None, "continuation": [bdesc(b) for b in cont]}
+    d.update(extra or {})
+    return d
+
+
+def run_recipe(rc, keep=False):
+    """the observation that C14 judges: {"raised": kind | None, "at"?, "state_changed"?, "continuation_differs"?, "error"?}
+    (`keep`: also return the metric object that received the faulty call)"""
+    spec = spec_by_name(rc["class"])
+    cfg = dict(rc["cfg"])
+    fb = bundesc(rc["faulty_call"])
+    if rc["mode"] == "fn":
+        r = call_real(lambda: spec.functional(cfg, fb))
+        res = {"raised": r[1] if r[0] == "err" else None}
+        return (res, r) if keep else res
+    try:
+        m, twin = new_metric(spec, cfg), new_metric(spec, cfg)
+    except Exception as e:  # noqa: BLE001   (an out-of-range constructor parameter: rejected before any state exists)
+        res = {"raised": type(e).__name__, "at": "constructor"}
+        return (res, None) if keep else res
+    for d in rc["history"]:
+        b = bundesc(d)
+        b.apply(m); b.apply(twin)
+    before, pbefore = snapshot(m), plain_attrs(m)
+    err = try_update(m, fb)
+    if err is None:
+        res = {"raised": None}
+        return (res, m) if keep else res
+    res = {"raised": err[0], "error": err}
+    if not snap_equal(before, snapshot(m)) or pbefore != plain_attrs(m):
+        res["state_changed"] = True
+        return (res, m) if keep else res
+    if rc.get("twin") is False:          # (k faults: no twin with the same — rejected — configuration is meaningful)
+        return (res, m) if keep else res
+    for d in rc["continuation"]:
+        b = bundesc(d)
+        e1, e2 = try_update(m, b), try_update(twin, b)
+        if (e1 is None) != (e2 is None):
+            res["continuation_differs"] = f"update after the failed call: {e1} vs twin {e2}"
+    o1, o2 = observe(m), observe(twin)
+    if not same_obs(o1, o2, 0.0):
+        res["continuation_differs"] = f"compute after the failed call {obs_json(o1)} vs twin {obs_json(o2)}"
+    return (res, m) if keep else res
+
+
+def gen_case(case):
+    """the recipe of a shape/type fault case, generated from its seed (None: the fault does not apply to this call)"""
     kind, si, ci, fault, cseed = case
     spec = SPECS[si]
     rng = Rng(cseed)
@@ -110,38 +185,24 @@ def run_case(case):
     if kind == "fn":
         b = spec.gen(rng, cfg, rng.choice(spec.sizes))
         fb = faulty(b, fault, rng.randrange(4))
-        if fb is None:
-            return {"skip": True}
-        r = call_real(lambda: spec.functional(cfg, fb))
-        return {"raised": r[1] if r[0] == "err" else None}
+        return None if fb is None else recipe("fn", spec, cfg, [], fb, [])
     hist = gen_stream(spec, cfg, rng, rng.randint(1 if fault == "wider_all" else 0, 2))
-    m, twin = new_metric(spec, cfg), new_metric(spec, cfg)
-    for b in hist:
-        b.apply(m); b.apply(twin)
     good = spec.gen(rng, cfg, rng.choice(spec.sizes))
     fb = faulty(good, fault, rng.randrange(4))
     if fb is None:
-        return {"skip": True}
-    before, pbefore = snapshot(m), plain_attrs(m)
-    err = try_update(m, fb)
-    if err is None:
-        return {"raised": None}
-    res = {"raised": err[0]}
-    if not snap_equal(before, snapshot(m)) or pbefore != plain_attrs(m):
-        res["state_changed"] = True
-        res["detail"] = {"class": spec.name, "cfg": public_cfg(cfg), "history": [b.describe() for b in hist], "faulty_call": fb.describe(), "error": err}
-        return res
+        return None
     cont = gen_stream(spec, cfg, rng, 2)
-    for b in cont:
-        e1, e2 = try_update(m, b), try_update(twin, b)
-        if (e1 is None) != (e2 is None):
-            res["continuation_differs"] = f"update after the failed call: {e1} vs twin {e2}"
-    o1, o2 = observe(m), observe(twin)
-    if not same_obs(o1, o2, 0.0):
-        res["continuation_differs"] = f"compute after the failed call {obs_json(o1)} vs twin {obs_json(o2)}"
-    if "continuation_differs" in res:
-        res["detail"] = {"class": spec.name, "cfg": public_cfg(cfg), "history": [b.describe() for b in hist], "faulty_call": fb.describe(),
-                         "continuation": [b.describe() for b in cont], "error": err}
+    return recipe("cls", spec, cfg, hist, fb, cont)
+
+
+def run_case(case):
+    rc = gen_case(case)
+    if rc is None:
+        return {"skip": True}
+    res = run_recipe(rc)
+    err = res.pop("error", None)
+    if res.get("state_changed") or "continuation_differs" in res:
+        res["detail"] = dict(rc, error=err)
     return res
 
 
@@ -313,11 +374,9 @@ def k_limit(spec, cfg, b: Batch) -> int:
     return a0.shape[-1] if isinstance(a0, torch.Tensor) and a0.ndim >= 1 else 1
 
 
-def run_index_case(case):
-    """one index fault.  The parent (c14.judge) treats as violations only: death / hang of this process, an
-    exception after which state_dict()/plain attributes changed, and a continuation that differs from the twin.
-    A call that returns normally satisfies C14; the fields `returned`, `compute`, `oracle` only DESCRIBE what
-    was returned (input-distribution counts and the `accepted_out_of_range_inputs` note)."""
+def gen_index_case(case):
+    """(recipe | None, context) of an index fault case, generated from its seed.  context: what the descriptive part of
+    `run_index_case` needs (the valid batch, the configuration used for generation, the fault value …)"""
     kind, si, ci, fault, cseed = case
     spec = SPECS[si]
     fam, rest = fault.split(":", 1)
@@ -325,29 +384,60 @@ def run_index_case(case):
     pos = int(pos)
     rng = Rng(cseed)
     cfg = fresh_cfg(spec.configs[ci])
+    n = rng.choice([s for s in spec.sizes if s >= 2] or [2])
+    where = rng.randrange(n)
+    ctx = {"spec": spec, "cfg": cfg, "fam": fam, "fname": fname, "pos": pos, "where": where}
+    if fam == "k":
+        good = spec.gen(rng, cfg, n)
+        lim = k_limit(spec, cfg, good)
+        kv = {"0": 0, "-1": -1, "n+1": lim + 1, "2^31": 2 ** 31}[fname]
+        ctx.update(good=good, lim=lim, kv=kv, bad_cfg=dict(cfg, k=kv), ref_cfg=dict(cfg, k=lim))
+        return recipe("fn" if kind == "ifn" else "cls", spec, ctx["bad_cfg"], [], good, [], {"twin": False, "k": kv}), ctx
+    good = gen_with(spec, cfg, rng, n, pos, fam == "label")
+    if good is None:
+        return None, ctx
+    hist = [] if kind == "ifn" else gen_stream(spec, cfg, rng, rng.randint(0, 2))
+    if fam == "label":
+        C = label_bound(spec, cfg, good, pos)
+        v = label_value(fname, C)
+        ctx.update(C=C)
+    else:
+        v = {"nan": float("nan"), "+inf": float("inf"), "-inf": float("-inf")}[fname]
+    fb = with_value(good, pos, v, where)
+    cont = [] if kind == "ifn" else gen_stream(spec, cfg, rng, 2)
+    ctx.update(good=good, hist=hist, v=v, fb=fb)
+    return recipe("fn" if kind == "ifn" else "cls", spec, cfg, hist, fb, cont), ctx
+
+
+def run_index_case(case):
+    """one index fault.  The parent (c14.judge) treats as violations only: death / hang of this process, an
+    exception after which state_dict()/plain attributes changed, and a continuation that differs from the twin.
+    A call that returns normally satisfies C14; the fields `returned`, `compute`, `oracle` only DESCRIBE what
+    was returned (input-distribution counts and the `accepted_out_of_range_inputs` note)."""
+    kind, si, ci, fault, cseed = case
+    rc, ctx = gen_index_case(case)
+    spec, cfg, fam, fname, pos, where = ctx["spec"], ctx["cfg"], ctx["fam"], ctx["fname"], ctx["pos"], ctx["where"]
     entry = (spec.name + ".update") if kind == "icls" else functional_name(spec)
     res = {"entry": entry, "family": fam, "cfg": public_cfg(cfg),
            "kinds": next((k for i, f, p, k in index_plan() if i == si and f == fam and p == pos), [])}
-    n = rng.choice([s for s in spec.sizes if s >= 2] or [2])
-    where = rng.randrange(n)
+    if rc is None:
+        return {"skip": True}
 
     def descr(hist, fb, extra=None):
         d = {"class": spec.name, "cfg": public_cfg(cfg), "history": [b.describe() for b in hist], "faulty_call": fb.describe() if fb is not None else None}
         d.update(extra or {})
         return d
 
+    obs, got = run_recipe(rc, keep=True)
+    err = obs.pop("error", None)
     # ---------------- k faults: the parameter itself is out of range
     if fam == "k":
-        good = spec.gen(rng, cfg, n)
-        lim = k_limit(spec, cfg, good)
+        good, lim, kv, ref_cfg = ctx["good"], ctx["lim"], ctx["kv"], ctx["ref_cfg"]
         # precision@k divides by k itself (documented) unless limit_k_to_size: k > n is then a legal request
         saturates = not (spec.name == "RetrievalPrecision" and not cfg.get("limit_k_to_size"))
-        kv = {"0": 0, "-1": -1, "n+1": lim + 1, "2^31": 2 ** 31}[fname]
-        bad_cfg = dict(cfg, k=kv)
-        ref_cfg = dict(cfg, k=lim)
         res["value"] = kv
         if kind == "ifn":
-            r = call_real(lambda: spec.functional(bad_cfg, good))
+            r = got
             if r[0] == "err":
                 return {"skip": True} if r[1] == "NotImplementedError" else dict(res, raised=r[1])
             res["returned"] = True
@@ -361,18 +451,15 @@ def run_index_case(case):
             if res["oracle"] in ("differs-from-k=n", "nonzero-for-k<=0"):
                 res["detail"] = descr([], good, {"k": kv, "result": [t.tolist() for t in r[1]]})
             return res
-        try:
-            m = new_metric(spec, bad_cfg)
-        except Exception as e:  # noqa: BLE001
-            return dict(res, raised=type(e).__name__, at="constructor")
-        before, pbefore = snapshot(m), plain_attrs(m)
-        err = try_update(m, good)
-        if err is not None:
-            res["raised"] = err[0]
-            if not snap_equal(before, snapshot(m)) or pbefore != plain_attrs(m):
+        if obs.get("at") == "constructor":
+            return dict(res, raised=obs["raised"], at="constructor")
+        if obs["raised"] is not None:
+            res["raised"] = obs["raised"]
+            if obs.get("state_changed"):
                 res["state_changed"] = True
-                res["detail"] = descr([], good, {"k": kv, "error": err})
+                res["detail"] = dict(rc, error=err)
             return res
+        m = got
         o = observe(m)
         if o[0] == "err":
             return dict(res, raised=o[1], at="compute")
@@ -389,24 +476,18 @@ def run_index_case(case):
         return res
 
     # ---------------- label / score faults: one element of one argument is out of range
+    good, fb, v = ctx["good"], ctx["fb"], ctx["v"]
+    if fam == "label":
+        C = ctx["C"]
+        res.update(value=v, bound=C)
     if kind == "ifn":
-        good = gen_with(spec, cfg, rng, n, pos, fam == "label")
-        if good is None:
-            return {"skip": True}
+        r = got
         if fam == "label":
-            C = label_bound(spec, cfg, good, pos)
-            v = label_value(fname, C)
-            fb = with_value(good, pos, v, where)
-            res.update(value=v, bound=C)
-            r = call_real(lambda: spec.functional(cfg, fb))
             if r[0] == "err":
                 return {"skip": True} if r[1] == "NotImplementedError" else dict(res, raised=r[1])
             res["returned"] = True
             res["detail"] = descr([], fb, {"result": [t.tolist() for t in r[1]], "valid_labels": f"0..{C - 1}"})
             return res
-        v = {"nan": float("nan"), "+inf": float("inf"), "-inf": float("-inf")}[fname]
-        fb = with_value(good, pos, v, where)
-        r = call_real(lambda: spec.functional(cfg, fb))
         if r[0] == "err":
             return dict(res, raised=r[1])
         res["returned"] = True
@@ -419,40 +500,18 @@ def run_index_case(case):
                                                "as_below_all_thresholds": [t.tolist() for t in lo[1]] if lo[0] == "ok" else lo[1]})
         return res
 
-    good = gen_with(spec, cfg, rng, n, pos, fam == "label")
-    if good is None:
-        return {"skip": True}
-    hist = gen_stream(spec, cfg, rng, rng.randint(0, 2))
-    m, twin = new_metric(spec, cfg), new_metric(spec, cfg)
-    for b in hist:
-        b.apply(m); b.apply(twin)
-    if fam == "label":
-        C = label_bound(spec, cfg, good, pos)
-        v = label_value(fname, C)
-        res.update(value=v, bound=C)
-    else:
-        v = {"nan": float("nan"), "+inf": float("inf"), "-inf": float("-inf")}[fname]
-    fb = with_value(good, pos, v, where)
-    before, pbefore = snapshot(m), plain_attrs(m)
-    err = try_update(m, fb)
-    if err is not None:
-        res["raised"] = err[0]
-        if not snap_equal(before, snapshot(m)) or pbefore != plain_attrs(m):
+    hist = ctx["hist"]
+    if obs["raised"] is not None:
+        res["raised"] = obs["raised"]
+        if obs.get("state_changed"):
             res["state_changed"] = True
-            res["detail"] = descr(hist, fb, {"error": err})
-            return res
-        cont = gen_stream(spec, cfg, rng, 2)
-        for b in cont:
-            e1, e2 = try_update(m, b), try_update(twin, b)
-            if (e1 is None) != (e2 is None):
-                res["continuation_differs"] = f"update after the failed call: {e1} vs twin {e2}"
-        o1, o2 = observe(m), observe(twin)
-        if not same_obs(o1, o2, 0.0):
-            res["continuation_differs"] = f"compute after the failed call {obs_json(o1)} vs twin {obs_json(o2)}"
-        if "continuation_differs" in res:
-            res["detail"] = descr(hist, fb, {"continuation": [b.describe() for b in cont], "error": err})
+        if "continuation_differs" in obs:
+            res["continuation_differs"] = obs["continuation_differs"]
+        if res.get("state_changed") or "continuation_differs" in res:
+            res["detail"] = dict(rc, error=err)
         return res
     # update() accepted the out-of-range element
+    m = got
     o = observe(m)
     res["returned"] = True
     res["compute"] = "raises:" + o[1] if o[0] == "err" else "returns"
@@ -506,6 +565,29 @@ def limit_memory():
 
 def main():
     limit_memory()
+    if sys.argv[1] == "--describe":
+        # the recipe (concrete content) of a case, generated from its seed WITHOUT running the fault: `--describe <json case>`
+        case = json.loads(sys.argv[2])
+        c = (case[0], next(i for i, s in enumerate(SPECS) if s.name == case[1]), case[2], case[3], case[4])
+        try:
+            rc = gen_index_case(c)[0] if c[0] in ("icls", "ifn") else gen_case(c)
+            r = {"recipe": rc}
+        except Exception as e:  # noqa: BLE001
+            r = {"harness_error": repr(e)[:200]}
+        sys.stdout.write(json.dumps({"described": 0, **r}, default=str) + "\n"); sys.stdout.flush()
+        return
+    if sys.argv[1] == "--recipe":
+        # replay of a recorded recipe: `--recipe <file with the json recipe>`
+        with open(sys.argv[2]) as f:
+            rc = json.load(f)
+        sys.stdout.write(json.dumps({"start": 0}) + "\n"); sys.stdout.flush()
+        try:
+            r = run_recipe(rc)
+            r.pop("error", None)
+        except Exception as e:  # noqa: BLE001
+            r = {"harness_error": repr(e)[:200]}
+        sys.stdout.write(json.dumps({"done": 0, **r}, default=str) + "\n"); sys.stdout.flush()
+        return
     if sys.argv[1] == "--one":
         # replay of a single recorded case: `--one <json case>`
         case = json.loads(sys.argv[2])
